@@ -134,6 +134,7 @@ func MustCompile(expr string) *Expr {
 // Eval can be called multiple times, with different input
 // data if required.
 func (e *Expr) Eval(data interface{}) (interface{}, error) {
+	verifEval(e, data)
 	input, ok := data.(reflect.Value)
 	if !ok {
 		input = reflect.ValueOf(data)
